@@ -22,11 +22,22 @@ def gen_cases(rng, tier):
     # the statement itself: N taps in a row (each within T of the previous), the last one held, then released
     KEYS = [45, 21, 44, 46, 47]       # x y z c v
     j = 0
-    for eager in (False, True):
+    # (lists of plain keys, and lists in which one entry is an action that presses nothing or is a macro: what an entry does must not
+    # decide whether the next tap counts)
+    for eager, variant in [(e, v) for e in (False, True) for v in ('keys', 'xx-first', 'xx-second', 'macro-first', 'release-first')]:
         for L in (2, 3, 4, 5):
             for N in range(1, L + 2):
                 T = rng.choice([30, 100])
-                cfg = '(defsrc a s)\n(deflayer l0 (%s %d (%s)) 1)' % ('tap-dance-eager' if eager else 'tap-dance', T, ' '.join('xyzcv'[:L]))
+                slots = list('xyzcv'[:L])
+                if variant == 'xx-first':
+                    slots[0] = 'XX'
+                elif variant == 'xx-second':
+                    slots[1] = 'XX'
+                elif variant == 'macro-first':
+                    slots[0] = '(macro x)'
+                elif variant == 'release-first':
+                    slots[0] = '(release-key lalt)'
+                cfg = '(defsrc a s)\n(deflayer l0 (%s %d (%s)) 1)' % ('tap-dance-eager' if eager else 'tap-dance', T, ' '.join(slots))
                 h = ['t5']
                 for k in range(min(N, L) if N > L else N):
                     last = (k == (min(N, L) if N > L else N) - 1)
@@ -36,8 +47,10 @@ def gen_cases(rng, tier):
                 hold = rng.choice([5, T + 30])
                 h += ['t%d' % hold, 'r0,30', 't%d' % (T + 60)]
                 taps = min(N, L) if N > L else N
-                cases.append({'id': 'c17-spec-%d' % j, 'cfg': cfg, 'hist': h, 'sub': 'lsim', 'spec': {'eager': eager, 'L': L, 'taps': taps},
-                              'tags': {'eager': eager, 'n': L, 'taps': taps, 'mode': 'statement'}})
+                silent = [i for i, sl in enumerate(slots) if sl in ('XX', '(release-key lalt)')]
+                cases.append({'id': 'c17-spec-%d' % j, 'cfg': cfg, 'hist': h, 'sub': 'lsim',
+                              'spec': {'eager': eager, 'L': L, 'taps': taps, 'silent': silent},
+                              'tags': {'eager': eager, 'n': L, 'taps': taps, 'mode': 'statement', 'list': variant}})
                 j += 1
     return cases
 
@@ -57,9 +70,9 @@ def oracle(c, it):
             last = cur
     want = KEYS[sp['taps'] - 1]
     if sp['eager']:
-        exp = {k: 1 for k in KEYS[:sp['taps']]}
+        exp = {k: 1 for i, k in enumerate(KEYS[:sp['taps']]) if i not in sp.get('silent', ())}
     else:
-        exp = {want: 1}
+        exp = {want: 1} if sp['taps'] - 1 not in sp.get('silent', ()) else {}
     if downs != exp:
         return '%d taps on a %s of %d actions: expected key presses %s, saw %s' % (sp['taps'], 'tap-dance-eager' if sp['eager'] else 'tap-dance', sp['L'], exp, downs)
     if last:
